@@ -28,7 +28,7 @@ META = {
     "category": "proof",
     "technique": "Coq model of the selector and of the wake-up protocol; invariants; differential runs on synthetic trees; trace acceptance of real threaded runs",
     "text": "Coq theorems (Stall/Props_C20.v, closed under the global context) over an executable model of lsmtk's compaction selector (compute_bounds with its fixed-point loop and a proved fuel bound, trivial moves, find_best_compaction with saturating i64 scores and the byte/file limits, expand_compaction, may_choose_compaction, next_compaction with the mandatory logic and exact-rational level_factor) and over a transition system of the stall/compact condition variables: no wake-up is lost on either variable for every interleaving of client ingests and 1..K compaction threads; the store threads all wait on one another exactly when ingest is stalled, nothing is ongoing and the selector returns nothing, and that state is permanent; the selector returns a compaction in every stalled state outside the known class K-stall for every usize option setting (inside the class the statement is refuted and the deadlock is shown reachable); every choice of the selector is admissible (Lsm valid_compactionb, incl. the expanded candidates) and respects ongoing compactions; the selector never panics and its loop terminates on well-formed trees; every compaction it picks lowers a measure of the tree, so a run of select-and-apply steps between two ingests has at most mu(v) steps. The models are tied to the code by 3-way differential runs on generated trees (real next_compaction vs extracted model vs Python oracles), an exhaustive small-scope class search, and real multi-threaded store sessions whose critical-section traces are replayed on the model with an exact all-parked watchdog. Compaction threads that return after an I/O error are covered (fault-injected sessions; the survivors must be woken). Repaired in /repo: F15, the README stall (0634ccd); the missing compact.notify_all() of a failing compaction thread (33fc9d3). Known classes: K-stall; waitlist-full (more writers in flight than wait-list slots, demonstrated on a 2-slot ring).",
-    "note": "Liveness is proved in its safety form (no lost wake-up + stall_relievable + permanence of stuck states + a termination measure for sequential select-and-apply runs); not proved: the run-level measure bound for several compaction threads (a compaction selected on one version and applied to a later one), well-formedness of the tree as an invariant of the protocol model (a hypothesis, asserted on every real run; C01 proves it for its own machine), liveness of put/delete/batch (safety in C06, hand-over liveness in C18, composition not stated), scheduler/Mutex/Condvar fairness. Trusted: Coq kernel; extraction + ocaml/stall driver; harness c20 and the cfg(blue_verif) hooks verif_select / verif_parked / trace (critical sections of the compaction mutex are taken to be atomic); Rust Mutex/Condvar semantics; float tables compared with Rust on every run, cases within 2^-20 of an integer or |score| >= 2^32 counted as float-risk. Class K-stall: level 0 empty under a zero stall threshold; max_open_files <= |L0| + |L1 overlap| (or, when the mandatory condition does not hold under a stall, <= the number of files in the tree).",
+    "note": "Liveness is proved in its safety form (no lost wake-up + stall_relievable + permanence of stuck states + a termination measure for sequential select-and-apply runs); not proved: the run-level measure bound for several compaction threads (a compaction selected on one version and applied to a later one), well-formedness of the tree as an invariant of the protocol model (a hypothesis, asserted on every real run; C01 proves it for its own machine), liveness of put/delete/batch (safety in C06, hand-over liveness in C18, composition not stated), scheduler/Mutex/Condvar fairness. The protocol model covers the compaction mutex and the condition variables stall/compact only; other locks held across a wait (manifest RwLock, store mutex, wait list) are caught by progress, not by the model: watchdog verdict `lockheld` in the threaded sessions (incl. a family whose stall is relieved by a merging, manifest-writing compaction) and gated multi-writer schedules overlapping a rollover in which every put must return. Trusted: Coq kernel; extraction + ocaml/stall driver; harness c20 and the cfg(blue_verif) hooks verif_select / verif_parked / trace (critical sections of the compaction mutex are taken to be atomic); Rust Mutex/Condvar semantics; float tables compared with Rust on every run, cases within 2^-20 of an integer or |score| >= 2^32 counted as float-risk. Class K-stall: level 0 empty under a zero stall threshold; max_open_files <= |L0| + |L1 overlap| (or, when the mandatory condition does not hold under a stall, <= the number of files in the tree).",
 }
 
 PROPS = "theories/Stall/Props_C20.v"
@@ -283,9 +283,46 @@ OPT_FLAGS = ["--max-open-files", "--max-compaction-bytes", "--max-compaction-fil
 SKEYS = [b"a", b"b", b"c", b"d", b"e", b"f", b"g", b"h", b"k", b"m", b"p", b"s", b"w", b"z"]
 
 
+def gen_deep_overlap(rng):
+    """every flush rewrites the same small key set, so every file overlaps every other: the tree is
+    built level by level with single-stepped compactions until level 1 holds a file (15+ rounds),
+    level 0 is then filled to the stall threshold, one more flush parks on `stall`, and only then
+    the compaction threads start: the stall must be relieved by a MERGING compaction (no trivial
+    move exists), which writes the manifest while the ingest sleeps"""
+    o = list(G.DEFAULTS)
+    o[5] = rng.choice([1, 2, 2, 3])
+    o[3] = rng.range(1, o[5])
+    o[2] = rng.choice([1, 2, 4, 64])
+    k = rng.choice([1, 2, 2, 3])
+    keys = sorted(set(rng.choice(SKEYS) for _ in range(rng.range(2, 4))) | {b"a", b"z"})
+    rounds = rng.choice([15, 15, 16, 18])
+    base = rng.range(600, 3000)
+    shrink = rng.choice([0, base // 22, base // 18])
+    script = []
+    for r in range(rounds):
+        sz = max(1, base - shrink * r)
+        for key in keys:
+            script.append("put %s %s" % (key.hex(), (bytes([65 + rng.below(26)]) * sz).hex()))
+        script += ["flush", "stepall"]
+    for r in range(o[5]):
+        for key in keys:
+            script.append("put %s %s" % (key.hex(), (b"w" * rng.range(1, 200)).hex()))
+        script.append("flush")
+    for key in keys:
+        script.append("put %s 7777" % key.hex())
+    script += ["flushreq", "flushwait", "threads %d" % k, "settle"]     # flushwait: until the flush thread is parked on `stall`
+    for r in range(rng.range(0, 3)):
+        for key in keys:
+            script.append("put %s %s" % (key.hex(), (b"x" * rng.range(1, 300)).hex()))
+        script += ["flushreq", "flushwait"]
+    return {"tag": "deep-overlap", "opts": o, "k": k, "script": script}
+
+
 def gen_session(rng, tier):
     """a scripted session: options, K compaction threads, rounds of puts followed by a flush
     request; thresholds are small so that a dozen flushes fill level 0 and cascade through the levels"""
+    if rng.chance(1, 12):
+        return gen_deep_overlap(rng)
     kind = rng.below(100)
     o = list(G.DEFAULTS)
     if kind < 45:
@@ -382,6 +419,9 @@ def run_session(exe, mx, sess, work, idx):
                         continue
                     verdict = "deadlock"
                     break
+                if out == "FLUSHWAIT lockheld":
+                    verdict = "lockheld"
+                    break
                 if out == "FLUSHWAIT threadexit" and faulty and not any(t.startswith("THREAD memtable") for t in st.threads):
                     verdict = "threadexit"        # every compaction thread returned after an injected fault: the premise is gone
                     break
@@ -395,8 +435,8 @@ def run_session(exe, mx, sess, work, idx):
             elif op == "settle":
                 out = st.cmd("watch 20000 %d" % kcur, timeout=60)
                 v = out.split()[1] if out.startswith("WATCH") else out
-                if v == "deadlock":
-                    verdict = "deadlock"
+                if v in ("deadlock", "lockheld"):
+                    verdict = v
                     break
                 if v == "threadexit" and faulty and not any(t.startswith("THREAD memtable") for t in st.threads):
                     verdict = "threadexit"
@@ -424,7 +464,7 @@ def run_session(exe, mx, sess, work, idx):
                     verdict = out
                     break
             else:
-                out = st.cmd(op, timeout=60)
+                out = st.cmd(op, timeout=20)
                 res["ops"] += 1
                 if not out.endswith(" ok") and not out.startswith("FLUSHREQ"):
                     res["problems"].append({"kind": "write", "what": "a write did not return ok: %s -> %s" % (op[:40], out[:200])})
@@ -436,6 +476,12 @@ def run_session(exe, mx, sess, work, idx):
             out = st.cmd("watch 20000 %d" % k, timeout=60)
             verdict = out.split()[1] if out.startswith("WATCH") else out
         res["verdict"] = verdict
+        if verdict == "lockheld":
+            # progress watchdog: the compaction mutex (or the store mutex) could not be had for 5 s
+            # while a flush was waiting.  Nothing of the store can be asked any more (peek and the
+            # trace need the same mutex); the session itself is the replay.
+            res["problems"].append({"kind": "lockheld", "what": "no progress: a store lock (the compaction mutex or the store mutex) is held for more than 5 s while a flush or an ingest is waiting; every store thread waits on one another through a lock that is held across a wait"})
+            return res
         peek = st.cmd("peek") if verdict in ("deadlock", "idle") else "PEEK ?"
         tr = st.cmd_multi("taketrace", "TRACEEND", timeout=60)
         if st.threads:
@@ -713,7 +759,7 @@ def run(chk):
             sess_stats["aborted_after_hangs"] = len(sessions) - idx
             break
         r = run_session(hxbin, mx, sess, chk.work, idx)
-        n_hangs += any(p["kind"] == "hang" for p in r["problems"]) or r["verdict"] in ("timeout", "HANG")
+        n_hangs += any(p["kind"] in ("hang", "lockheld") for p in r["problems"]) or r["verdict"] in ("timeout", "HANG")
         sess_stats["sessions"] += 1
         sess_stats["verdicts"][r["verdict"]] = sess_stats["verdicts"].get(r["verdict"], 0) + 1
         t = sess["tag"].split(":")[0] if sess["tag"].startswith("corpus") else sess["tag"]
@@ -728,7 +774,9 @@ def run(chk):
                 if "PANIC" in p["what"]:
                     problems.append({"kind": "property", "what": "a store thread panicked: " + p["what"], "session": replay})
                 continue
-            if p["kind"] in ("hang", "write"):
+            if p["kind"] == "lockheld":
+                problems.append({"kind": "property", "what": "real threads: " + p["what"], "session": replay})
+            elif p["kind"] in ("hang", "write"):
                 problems.append({"kind": "property", "what": "a write or flush did not complete although no deadlock of the store threads was detected: " + p["what"], "session": replay})
             else:
                 q = dict(p)
@@ -743,7 +791,7 @@ def run(chk):
         elif r["verdict"] == "threadexit" and "sabotage" in sess["script"]:
             sess_stats["all_compaction_threads_returned_after_fault"] = sess_stats.get("all_compaction_threads_returned_after_fault", 0) + 1
         elif r["verdict"] not in ("idle",):
-            if not any(p["kind"] in ("hang", "write", "error") for p in r["problems"]):
+            if not any(p["kind"] in ("hang", "write", "error", "lockheld") for p in r["problems"]):
                 problems.append({"kind": "corr", "what": "session ended with verdict %s" % r["verdict"], "session": replay})
         if r.get("latent_stall_known") is True:
             sess_stats["latent_stalls_known"] += 1
@@ -752,6 +800,45 @@ def run(chk):
         if expect and r["verdict"] not in (expect if isinstance(expect, list) else [expect]):
             problems.append({"kind": "property" if "idle" in expect else "corr", "what": "corpus session: expected verdict %s, got %s" % (expect, r["verdict"]), "session": replay})
     t_sess = time.time() - t0
+
+    # ---- client writers that overlap a rollover (gated schedules): every put must return
+    # The sessions above have one client; here 2..6 writers are in flight at once, one of them is
+    # held at a gate (after it got its sequence number / after its log append / after its memtable
+    # insert) while a rollover is requested and other writers link behind the flush thread, then
+    # it is released.  Nothing can stall here (default thresholds, a handful of files): a put that
+    # does not return, or a requested flush that is not ingested, within 4 s is a violation.
+    wstats = {"schedules": 0, "writers": 0, "with_rollover": 0, "samples": []}
+    wrng = rng.fork()
+    wscripts = [("corpus", "arm:w_logged:0;start:0;parked:w_logged:0;flushreq;rolled;sleep:50;start:1;sleep:150;release:w_logged:0;sleep:100;start:2")]
+    for i in range(14 if quick else 150):
+        point = wrng.choice(["w_logged", "w_logged", "w_dropped", "w_unlocked"])
+        n = wrng.range(2, 5)
+        sc = ["arm:%s:0" % point, "start:0", "parked:%s:0" % point]
+        roll = wrng.chance(4, 5)
+        if roll:
+            sc += ["flushreq", "rolled", "sleep:%d" % wrng.choice([0, 30])]
+        for t in range(1, n):
+            sc += ["start:%d" % t, "sleep:%d" % wrng.choice([0, 20, 120])]
+        if not roll and wrng.chance(1, 2):
+            sc += ["flushreq"]
+        sc += ["release:%s:0" % point, "sleep:%d" % wrng.choice([0, 60]), "start:%d" % n]
+        wscripts.append(("gen%d" % i, ";".join(sc)))
+    for tag, sc in wscripts:
+        d = os.path.join("/dev/shm" if os.path.isdir("/dev/shm") else chk.work, "blue_verif_c20_w_%d" % os.getpid())
+        shutil.rmtree(d, ignore_errors=True)
+        rc, out = vlib.sh([hxbin, "writers", d, "4000", sc], timeout=60)
+        shutil.rmtree(d, ignore_errors=True)
+        ln = ([l for l in out.split("\n") if l.startswith("WRITERS")] or ["WRITERS verdict=nooutput"])[-1]
+        wstats["schedules"] += 1
+        wstats["writers"] += sc.count("start:")
+        wstats["with_rollover"] += "flushreq" in sc
+        if len(wstats["samples"]) < 2:
+            wstats["samples"].append(sc + " -> " + ln)
+        if "verdict=allreturned" not in ln:
+            problems.append({"kind": "property", "what": "a put did not return (or a requested flush was not ingested) although nothing is stalled: " + ln, "schedule": sc, "tag": tag,
+                             "replay_cmd": "work/target/release/c20 writers /dev/shm/x 4000 '%s'" % sc})
+            if sum(1 for p in problems if "schedule" in p) >= 3:
+                break
 
     # ---- the write path against a full wait-list ring (known class waitlist-full)
     # KeyValueStore::write links into the wait list while holding the store mutex; when every slot
@@ -799,6 +886,7 @@ def run(chk):
         "class_search": small_tally,
         "sessions": sess_stats,
         "waitlist_ring": ring_stats,
+        "gated_writers": wstats,
         "correspondence": "real Version::next_compaction (hook verif_select) vs extracted Coq model vs Python oracles, 3-way; real threaded store sessions replayed event by event on the extracted model",
         "disagreements_impl_vs_model": sum(1 for p in problems if p["kind"] == "corr"),
         "disagreements_impl_vs_spec": sum(1 for p in problems if p["kind"] == "property"),
@@ -844,6 +932,13 @@ def replay(path):
         stuck = iw[0] == "1" and not g and ch is None and py_known(o, lv) is None
         bad = ch is not None and (py_valid(lv, ch) or not py_may_choose(o, g, ch))
         return 1 if (stuck or bad or out.strip() != out2.split(" | ")[0].strip()) else 0
+    if "schedule" in obj:
+        d = "/dev/shm/blue_verif_c20_replay_w"
+        shutil.rmtree(d, ignore_errors=True)
+        rc, out = vlib.sh([hxbin, "writers", d, "4000", obj["schedule"]], timeout=60)
+        shutil.rmtree(d, ignore_errors=True)
+        print("impl now :", out.strip())
+        return 0 if "verdict=allreturned" in out else 1
     if "session" in obj:
         s = obj["session"]
         work = os.path.join(vlib.WORK, "C20")
